@@ -15,10 +15,15 @@ type KnownFinding struct {
 	What     string `json:"what"`
 	Region   string `json:"region"`
 	Example  string `json:"example,omitempty"`
+	// ClosedIn lists instances that lie in the finding's declared region but in which the failure does not occur (harvested
+	// from the region audit of fully decided runs, tools/harvest_kf_audit.py): there the finding is treated as not listed,
+	// so the assertion is checked in full and a new defect cannot hide behind the finding.
+	ClosedIn []string `json:"closed_in,omitempty"`
 }
 
 type KFFile struct {
-	Findings []KnownFinding `json:"findings"`
+	Findings  []KnownFinding `json:"findings"`
+	closedIdx map[string]map[string]bool
 }
 
 func verifDir() string {
@@ -58,4 +63,39 @@ func (k *KFFile) get(id string) *KnownFinding {
 		}
 	}
 	return nil
+}
+
+// openSetFor returns the open findings that apply to one instance (see KnownFinding.ClosedIn).
+func (k *KFFile) openSetFor(inst string, base map[string]bool) map[string]bool {
+	var m map[string]bool
+	for i := range k.Findings {
+		f := &k.Findings[i]
+		if !base[f.ID] || len(f.ClosedIn) == 0 {
+			continue
+		}
+		if k.closedIdx == nil {
+			k.closedIdx = map[string]map[string]bool{}
+		}
+		idx := k.closedIdx[f.ID]
+		if idx == nil {
+			idx = map[string]bool{}
+			for _, n := range f.ClosedIn {
+				idx[n] = true
+			}
+			k.closedIdx[f.ID] = idx
+		}
+		if idx[inst] {
+			if m == nil {
+				m = map[string]bool{}
+				for id := range base {
+					m[id] = true
+				}
+			}
+			delete(m, f.ID)
+		}
+	}
+	if m == nil {
+		return base
+	}
+	return m
 }
